@@ -77,13 +77,14 @@ def _feasible(path, assume=()):
     """no two tests on the way contradict each other (same atom, opposite outcome, no assignment to its names in between);
     *assume*: facts (atom text, value, names) that hold at the start of the path"""
     facts = dict((a, (v, set(names))) for a, v, names in assume)
+    flags = {}          # local name -> (call-free expression over local names it was last assigned, names of that expression)
     for i, n in enumerate(path[:-1]):
         nxt = path[i + 1]
         if n.kind == 'test' and n.ast is not None:
             lab = [l for t, l in n.succ if t is nxt and l in ('true', 'false')]
             if len(lab) == 1:
                 cs = []
-                _local_atoms(n.ast, lab[0] == 'true', cs)
+                _local_atoms(_subst_flags(n.ast, flags) if flags else n.ast, lab[0] == 'true', cs)
                 for a, v, names in cs:
                     if a in facts and facts[a][0] != v:
                         return False
@@ -105,7 +106,93 @@ def _feasible(path, assume=()):
             if killed:
                 for a in [a for a, (v, names) in facts.items() if names & killed]:
                     del facts[a]
+                for x in [x for x, (e_, names) in flags.items() if x in killed or names & killed]:
+                    del flags[x]
+            # a flag variable: `escaped = i != -1` makes a later `if escaped:` a test of `i != -1`
+            if n.kind == 'stmt' and isinstance(n.ast, ast.Assign) and len(n.ast.targets) == 1 and isinstance(n.ast.targets[0], ast.Name):
+                v_ = n.ast.value
+                if isinstance(v_, (ast.Compare, ast.BoolOp, ast.UnaryOp)) and \
+                        not any(isinstance(x, (ast.Call, ast.Attribute, ast.Subscript, ast.Await)) for x in ast.walk(v_)):
+                    nm = set(x.id for x in ast.walk(v_) if isinstance(x, ast.Name))
+                    if n.ast.targets[0].id not in nm:
+                        flags[n.ast.targets[0].id] = (v_, nm)
     return True
+
+
+class _State(object):
+    """facts about local names accumulated along a path (see _feasible): immutable, hashable"""
+    __slots__ = ('facts', 'flags', 'assumed')
+
+    def __init__(self, assume=(), facts=None, flags=None):
+        self.facts = dict((a, (v, frozenset(names))) for a, v, names in assume) if facts is None else facts
+        self.flags = {} if flags is None else flags
+        self.assumed = bool(assume)
+
+    def key(self):
+        return (tuple(sorted((a, v) for a, (v, nm) in self.facts.items())), tuple(sorted((x, src(e)) for x, (e, nm) in self.flags.items())))
+
+    def step(self, n, t, lab, is_start=False):
+        facts, flags = self.facts, self.flags
+        if n.kind == 'test' and n.ast is not None and lab in ('true', 'false'):
+            cs = []
+            _local_atoms(_subst_flags(n.ast, flags) if flags else n.ast, lab == 'true', cs)
+            if cs:
+                facts = dict(facts)
+                for a, v, names in cs:
+                    if a in facts and facts[a][0] != v:
+                        return None
+                    facts[a] = (v, frozenset(names))
+        elif n.ast is not None and n.kind in ('stmt', 'for', 'with', 'except') and not (is_start and self.assumed):
+            killed = set()
+            for x in ast.walk(n.ast) if n.kind == 'stmt' else ast.walk(n.ast.target if n.kind == 'for' else n.ast):
+                if isinstance(x, ast.Name) and isinstance(x.ctx, (ast.Store, ast.Del)):
+                    killed.add(x.id)
+            if n.kind == 'except' and getattr(n.ast, 'name', None):
+                killed.add(n.ast.name)
+            if n.kind == 'with':
+                for it in n.ast.items:
+                    if it.optional_vars is not None:
+                        for x in ast.walk(it.optional_vars):
+                            if isinstance(x, ast.Name):
+                                killed.add(x.id)
+            if killed:
+                facts = dict((a, fv) for a, fv in facts.items() if not (fv[1] & killed))
+                flags = dict((x, ev) for x, ev in flags.items() if x not in killed and not (ev[1] & killed))
+            if n.kind == 'stmt' and isinstance(n.ast, ast.Assign) and len(n.ast.targets) == 1 and isinstance(n.ast.targets[0], ast.Name):
+                v_ = n.ast.value
+                if isinstance(v_, (ast.Compare, ast.BoolOp, ast.UnaryOp)) and \
+                        not any(isinstance(x, (ast.Call, ast.Attribute, ast.Subscript, ast.Await)) for x in ast.walk(v_)):
+                    nm = frozenset(x.id for x in ast.walk(v_) if isinstance(x, ast.Name))
+                    if n.ast.targets[0].id not in nm:
+                        flags = dict(flags)
+                        flags[n.ast.targets[0].id] = (v_, nm)
+        st = _State((), facts, flags)
+        st.assumed = self.assumed
+        return st
+
+
+def _clone(node):
+    """structural copy that does not follow the `_parent` back-links"""
+    if isinstance(node, ast.AST):
+        new = node.__class__()
+        for name, val in ast.iter_fields(node):
+            setattr(new, name, _clone(val))
+        return new
+    if isinstance(node, list):
+        return [_clone(x) for x in node]
+    return node
+
+
+def _subst_flags(e, flags):
+    if not any(isinstance(x, ast.Name) and x.id in flags for x in ast.walk(e)):
+        return e
+
+    class T(ast.NodeTransformer):
+        def visit_Name(self, n):
+            if isinstance(n.ctx, ast.Load) and n.id in flags:
+                return _clone(flags[n.id][0])
+            return n
+    return T().visit(_clone(e))
 
 
 class CFG(object):
@@ -160,51 +247,59 @@ class CFG(object):
     def live_nodes(self, skip_labels=()):
         return self.reachable(self.entry, skip_labels=skip_labels)
 
-    def path(self, start, goal, avoid=(), skip_labels=(), include_start=True, avoid_edges=(), assume=()):
+    def path(self, start, goal, avoid=(), skip_labels=(), include_start=True, avoid_edges=(), assume=(), via=None):
         """A witness path start -> goal avoiding *avoid* that is not ruled out by the tests on LOCAL NAMES it passes
         (`idx is None` false then `idx is not None` false without an assignment to idx in between is no path); None if there
         is none.  The shortest candidate is tried first; only when it is contradictory are other simple paths enumerated
         (bounded: if the bound is hit the candidate is returned, i.e. the answer errs on the side of reporting)."""
+        goals = set(goal) if isinstance(goal, (set, list, tuple, frozenset)) else {goal}
+        if via is not None:
+            q = self._path_dfs(start, goals, set(avoid), skip_labels, include_start, set(avoid_edges), assume=assume, via=set(via))
+            return None if q == 'limit' else q
         p = self._path_bfs(start, goal, avoid, skip_labels, include_start, avoid_edges)
         if p is None or _feasible(p, assume):
             return p
-        goals = set(goal) if isinstance(goal, (set, list, tuple, frozenset)) else {goal}
         q = self._path_dfs(start, goals, set(avoid), skip_labels, include_start, set(avoid_edges), assume=assume)
         return p if q == 'limit' else q
 
-    def _path_dfs(self, start, goals, avoid, skip_labels, include_start, avoid_edges, limit=6000, assume=()):
-        # backward reachability to prune
-        can = set(goals)
-        st = list(goals)
-        while st:
-            x = st.pop()
-            for pr, l in x.pred:
-                if l in skip_labels or (pr, l) in avoid_edges or pr in can or (pr in avoid and pr is not start):
-                    continue
-                can.add(pr)
-                st.append(pr)
-        count = [0]
-
-        def walk(n, trail, first):
-            count[0] += 1
-            if count[0] > limit:
-                return 'limit'
-            if n in goals and not first:
-                return trail if _feasible(trail, assume) else None
-            if len(trail) > 1 and not _feasible(trail, assume):
-                return None
-            for t, l in n.succ:
-                if l in skip_labels or (n, l) in avoid_edges or t in avoid or t not in can:
-                    continue
-                if t in trail and not (t is start and t in goals):
-                    continue
-                r = walk(t, trail + [t], False)
-                if r is not None:
-                    return r
-            return None
+    def _path_dfs(self, start, goals, avoid, skip_labels, include_start, avoid_edges, limit=60000, assume=(), via=None):
+        """shortest feasible path by breadth-first search over (node, facts about local names) pairs"""
+        from collections import deque
         if include_start and start in goals:
             return [start]
-        return walk(start, [start], True)
+        f0 = _State(assume)
+        first = True
+        seen = set()
+        dq = deque()
+        dq.append((start, f0, None, via is None or start in via))
+        steps = 0
+        while dq:
+            item = dq.popleft()
+            n, st, _prev, passed = item
+            steps += 1
+            if steps > limit:
+                return 'limit'
+            if passed and (n in goals and not (first and not include_start) and item[2] is not None or (n in goals and include_start and item[2] is None)):
+                out = []
+                cur = item
+                while cur is not None:
+                    out.append(cur[0])
+                    cur = cur[2]
+                return list(reversed(out))
+            for t, l in n.succ:
+                if l in skip_labels or (n, l) in avoid_edges or (t in avoid and t not in goals) or (t in avoid):
+                    continue
+                st2 = st.step(n, t, l, is_start=(item[2] is None))
+                if st2 is None:
+                    continue
+                p2_ = passed or (via is not None and t in via)
+                key = (t.id, st2.key(), p2_)
+                if key in seen:
+                    continue
+                seen.add(key)
+                dq.append((t, st2, item, p2_))
+            first = False
+        return None
 
     def _path_bfs(self, start, goal, avoid=(), skip_labels=(), include_start=True, avoid_edges=()):
         """A shortest witness path start -> goal (goal: node or set) avoiding
